@@ -215,7 +215,10 @@ class Reactor:
             loop_timer.start()
             try:
                 # Handle signals
-                if self.signal.received:
+                # a reload waits for the Adj-RIB-Out to drain: the signal stays raised and the peers keep
+                # running (it used to be cleared first, so a reload asked for while UPDATEs were queued was lost)
+                reload_waits = self.signal.received in (Signal.RELOAD, Signal.FULL_RELOAD) and self._pending_adjribout()
+                if self.signal.received and not reload_waits:
                     signaled = self.signal.received
 
                     # Report signal to peers
